@@ -3,4 +3,4 @@ From Texel Require Import NN.Feature NN.Accum NN.AccumSpec NN.AccumInst NN.EvalC
 Extraction Language OCaml.
 Extraction "nn_model.ml" init16 step16 observe l1OutClipped fresh16 stackTop
   gstep ginit boardOfList nonKingList flipBoard mirrorBoard flipSq mirrorSq getIndex ptValue
-  evalPosM emptyTable cacheKey evalKeyContemptMul.
+  evalPosM emptyTable cacheKey evalKeyContemptMul clipLaneG scaleClipSpec s16val addSub16.
